@@ -2,7 +2,7 @@
    include_nested x leaves_only x sort x is_leaf combination; membership, length, emptiness, to_dict. *)
 From Coq Require Import ZArith List String Bool Lia Sorting.Permutation.
 Import ListNotations.
-From TD Require Import Model.Keys Model.C04_Tree Model.C04_Ops Model.C04_Views Spec.C04_NestedDict
+From TD Require Import Model.Keys Proofs.KeysP Model.C04_Tree Model.C04_Ops Model.C04_Views Spec.C04_NestedDict
      Proofs.C04_AssocP Proofs.C04_CoreP.
 Open Scope string_scope.
 Open Scope list_scope.
@@ -122,13 +122,10 @@ Proof.
   rewrite (Permutation_length P). now rewrite map_length.
 Qed.
 
-(* values: the values of the items, except for D41 *)
+(* values: the values of the items *)
 Theorem values_view_spec inc lo so nt es :
-  (inc = false /\ lo = false /\ so = true /\ es = []) \/
   values_view inc lo so nt es = Ok (map snd (items_view inc lo so nt es)).
-Proof.
-  unfold values_view. destruct inc, lo, so, es; cbn [negb andb is_nilb]; auto.
-Qed.
+Proof. reflexivity. Qed.
 
 (* emptiness and to_dict *)
 Theorem is_empty_spec es : is_empty es = negb (nd_has_leaf (ND (absE es))).
@@ -158,66 +155,166 @@ Proof.
     destruct (String.eqb_spec a k); try contradiction; reflexivity.
 Qed.
 
-Lemma items_pre_in : forall nt v0,
+Lemma items_pre_in : forall lo nt v0,
   match v0 with
   | Leaf _ _ => True
   | Node es => wfE es -> forall pre q v,
-      In (q, v) (items_pre false nt pre (Node es)) <->
-      exists p, p <> [] /\ q = pre ++ p /\ get_tuple p es true = GVal v
+      In (q, v) (items_pre lo nt pre (Node es)) <->
+      exists p, p <> [] /\ q = pre ++ p /\ get_tuple p es true = GVal v /\ (negb lo || is_leafb nt v = true)
   end.
 Proof.
-  intros nt. induction v0 as [k z|es IH] using tree_ind2; [exact I|].
+  intros lo nt. induction v0 as [k z|es IH] using tree_ind2; [exact I|].
   induction IH as [|[k w] r Hw Hr IHr]; intros W pre q v.
-  - cbn. split; [tauto|]. intros [p [N [_ G]]]. destruct p as [|a p]; [congruence|].
+  - cbn. split; [tauto|]. intros [p [N [_ [G _]]]]. destruct p as [|a p]; [congruence|].
     destruct p; [rewrite get_tuple_1 in G|rewrite get_tuple_2 in G]; discriminate.
   - apply wfE_inv in W. destruct W as [ND F]. inversion ND as [|? ? NI ND']; subst. inversion F as [|? ? Fw Fr]; subst.
     assert (Wr : wfE r) by (constructor; assumption).
     specialize (IHr Wr pre q v). cbn in Hw, Fw.
-    rewrite items_pre_cons. cbn [negb orb]. rewrite !in_app_iff. split.
-    + intros [[E|[]]|[I|I]].
-      * injection E as <- <-. exists [k]. split; [discriminate|]. split; [reflexivity|].
+    rewrite items_pre_cons. rewrite !in_app_iff. split.
+    + intros [I|[I|I]].
+      * destruct (negb lo || is_leafb nt w) eqn:C; [|contradiction]. destruct I as [E|[]].
+        injection E as <- <-. exists [k]. split; [discriminate|]. split; [reflexivity|]. split; [|exact C].
         rewrite get_tuple_1. cbn [aget]. now rewrite String.eqb_refl.
       * destruct w as [lk z|sub]; [contradiction|]. specialize (Hw Fw (pre ++ [k]) q v).
-        apply Hw in I. destruct I as [p' [N' [-> G']]]. exists (k :: p'). split; [discriminate|].
-        split; [now rewrite <- app_assoc|]. destruct p' as [|a2 p2]; [congruence|].
+        apply Hw in I. destruct I as [p' [N' [-> [G' C]]]]. exists (k :: p'). split; [discriminate|].
+        split; [now rewrite <- app_assoc|]. split; [|exact C]. destruct p' as [|a2 p2]; [congruence|].
         rewrite get_tuple_2. cbn [aget]. rewrite String.eqb_refl. exact G'.
-      * apply IHr in I. destruct I as [p [N [-> G]]]. exists p. split; [assumption|]. split; [reflexivity|].
+      * apply IHr in I. destruct I as [p [N [-> [G C]]]]. exists p. split; [assumption|]. split; [reflexivity|]. split; [|exact C].
         destruct p as [|a p]; [congruence|]. rewrite get_tuple_skip; [exact G|].
         intros ->. apply NI. exact (get_tuple_head_in _ _ _ _ _ G).
-    + intros [p [N [-> G]]]. destruct p as [|a p]; [congruence|].
+    + intros [p [N [-> [G C]]]]. destruct p as [|a p]; [congruence|].
       destruct (string_dec a k) as [->|Nak].
       * destruct p as [|a2 p2].
-        -- rewrite get_tuple_1 in G. cbn [aget] in G. rewrite String.eqb_refl in G. injection G as <-. left. now left.
+        -- rewrite get_tuple_1 in G. cbn [aget] in G. rewrite String.eqb_refl in G. injection G as <-. left. rewrite C. now left.
         -- rewrite get_tuple_2 in G. cbn [aget] in G. rewrite String.eqb_refl in G.
            destruct w as [[|] z|sub]; try discriminate. right. left.
            apply (Hw Fw (pre ++ [k]) (pre ++ k :: a2 :: p2) v). exists (a2 :: p2). split; [discriminate|].
-           split; [now rewrite <- app_assoc|exact G].
+           split; [now rewrite <- app_assoc|]. split; [exact G|exact C].
       * right. right. apply IHr. exists (a :: p). split; [discriminate|]. split; [reflexivity|].
-        now rewrite get_tuple_skip in G.
+        split; [now rewrite get_tuple_skip in G|exact C].
 Qed.
 
-(* what `key in td.keys(include_nested=True, leaves_only=False, ...)` answers is what iterating the view lists *)
-Theorem contains_iff_listed so nt p es b : wfE es -> p <> [] ->
-  view_contains_path true p es = Ok b ->
-  (b = true <-> In p (keys_view true false so nt es)).
+(* what any view lists, in terms of get *)
+Lemma keys_view_in inc lo so nt p es : wfE es ->
+  In p (keys_view inc lo so nt es) <->
+  exists v, (inc = true \/ List.length p = 1) /\ p <> [] /\ get_tuple p es true = GVal v /\ (negb lo || is_leafb nt v = true).
 Proof.
-  intros W N C.
-  assert (L : In p (keys_view true false so nt es) <-> exists v, get_tuple p es true = GVal v).
-  { assert (K : In p (keys_view true false so nt es) <-> In p (map fst (items_pre false nt [] (Node es)))).
-    { unfold keys_view. pose proof (keys_unsorted_perm true false nt es) as P. unfold items_unsorted in P.
-      destruct so.
-      - split; intros H.
-        + eapply Permutation_in; [exact P|]. eapply Permutation_in; [apply sort_by_perm|exact H].
-        + eapply Permutation_in; [apply Permutation_sym; apply sort_by_perm|].
-          eapply Permutation_in; [apply Permutation_sym; exact P|exact H].
-      - split; intros H; [eapply Permutation_in; [exact P|exact H]|eapply Permutation_in; [apply Permutation_sym; exact P|exact H]]. }
-    rewrite K. pose proof (items_pre_in nt (Node es) W []) as M. cbn [app] in M. split.
-    - intros I. apply in_map_iff in I. destruct I as [[q v] [E I]]. cbn in E. subst q. apply M in I.
-      destruct I as [p' [_ [-> G]]]. eauto.
-    - intros [v G]. apply in_map_iff. exists (p, v). split; [reflexivity|]. apply M. exists p. auto. }
-  rewrite L. pose proof (view_contains_refines p es N) as R. rewrite C in R.
-  pose proof (get_tuple_refines p es true N) as G. subst b. split.
-  - intros F. destruct (nd_find p (absE es)) eqn:FE; cbn in F; try discriminate.
-    destruct (get_tuple p es true) as [v'| |e]; [eauto|destruct G; congruence|destruct G as [[G _]|[G _]]; congruence].
-  - intros [v E]. rewrite E in G. now rewrite G.
+  intros W.
+  assert (K : In p (keys_view inc lo so nt es) <-> In p (map fst (items_unsorted inc lo nt es))).
+  { unfold keys_view. pose proof (keys_unsorted_perm inc lo nt es) as P.
+    destruct so.
+    - split; intros H.
+      + eapply Permutation_in; [exact P|]. eapply Permutation_in; [apply sort_by_perm|exact H].
+      + eapply Permutation_in; [apply Permutation_sym; apply sort_by_perm|].
+        eapply Permutation_in; [apply Permutation_sym; exact P|exact H].
+    - split; intros H; [eapply Permutation_in; [exact P|exact H]|eapply Permutation_in; [apply Permutation_sym; exact P|exact H]]. }
+  rewrite K. unfold items_unsorted. destruct inc.
+  - pose proof (items_pre_in lo nt (Node es) W []) as M. cbn [app] in M. split.
+    + intros I. apply in_map_iff in I. destruct I as [[q v] [E I]]. cbn in E. subst q. apply M in I.
+      destruct I as [p' [N [-> [G C]]]]. exists v. auto.
+    + intros [v [_ [N [G C]]]]. apply in_map_iff. exists (p, v). split; [reflexivity|]. apply M. exists p. auto.
+  - (* the flat view *)
+    rewrite map_map. cbn [fst].
+    assert (FL : forall l : ents, NoDup (map fst l) -> forall k v, In (k, v) l <-> aget k l = Some v).
+    { induction l as [|[k' w] r IHl]; intros ND k v; [cbn; split; [tauto|discriminate]|].
+      inversion ND as [|? ? NI ND']; subst. cbn [In aget]. destruct (String.eqb_spec k k') as [->|Nk].
+      - split; [intros [E|I]; [congruence|exfalso; apply NI; exact (in_map fst _ _ I)]|intros E; left; congruence].
+      - rewrite <- (IHl ND'). split; [intros [E|I]; [congruence|exact I]|intros I; now right]. }
+    apply wfE_inv in W. destruct W as [ND _]. split.
+    + intros I. apply in_map_iff in I. destruct I as [[k v] [E I]]. cbn in E. subst p.
+      assert (I2 : In (k, v) es /\ (negb lo || is_leafb nt v = true)).
+      { destruct lo; [apply filter_In in I; cbn in I; exact I|split; [exact I|reflexivity]]. }
+      destruct I2 as [I2 C]. exists v. split; [now right|]. split; [discriminate|]. split; [|exact C].
+      rewrite get_tuple_1. apply (FL es ND) in I2. now rewrite I2.
+    + intros [v [[D|L] [N [G C]]]]; [discriminate|]. destruct p as [|k [|k2 r]]; try discriminate.
+      rewrite get_tuple_1 in G. destruct (aget k es) as [w|] eqn:A; [|discriminate]. injection G as <-.
+      apply in_map_iff. exists (k, w). split; [reflexivity|]. apply (FL es ND) in A.
+      destruct lo; [apply filter_In; split; [exact A|exact C]|exact A].
+Qed.
+
+(* the walk of __contains__ in terms of get *)
+Lemma get_tuple_snoc : forall mid l es, mid <> [] ->
+  get_tuple (mid ++ [l]) es true =
+  match get_tuple mid es true with
+  | GVal (Node s) => get_tuple [l] s true
+  | GVal (Leaf LT _) => GRaise EOther
+  | GVal (Leaf LS _) => GRaise EUnmodelled
+  | GDef => GDef
+  | GRaise e => GRaise e
+  end.
+Proof.
+  induction mid as [|k rest IH]; intros l es N; [congruence|].
+  destruct rest as [|k2 r2].
+  - cbn [app]. rewrite get_tuple_2, get_tuple_1. destruct (aget k es) as [[[|] z|sub]|]; reflexivity.
+  - change ((k :: k2 :: r2) ++ [l]) with (k :: k2 :: (r2 ++ [l])). rewrite !get_tuple_2.
+    destruct (aget k es) as [[[|] z|sub]|]; try reflexivity.
+    change (k2 :: r2 ++ [l]) with ((k2 :: r2) ++ [l]). apply IH. discriminate.
+Qed.
+
+Definition listedb (lo nt : bool) (g : gres) : bool :=
+  match g with GVal v => negb lo || is_leafb nt v | _ => false end.
+
+Lemma entry_listed_get lo nt k es : entry_listed lo nt k es = listedb lo nt (get_tuple [k] es true).
+Proof. unfold entry_listed. rewrite get_tuple_1. destruct (aget k es); reflexivity. Qed.
+
+Lemma view_contains_lo_get : forall lo nt p es b, p <> [] ->
+  view_contains_lo true lo nt p es = Ok b -> b = listedb lo nt (get_tuple p es true).
+Proof.
+  intros lo nt p es b N C. destruct p as [|k rest]; [congruence|]. destruct rest as [|k1 r1].
+  - cbn in C. injection C as <-. apply entry_listed_get.
+  - destruct r1 as [|k2 r2].
+    + cbn in C. rewrite get_tuple_2. destruct (aget k es) as [[[|] z|sub]|]; try (injection C as <-; reflexivity); try discriminate.
+      injection C as <-. apply entry_listed_get.
+    + assert (NE : k1 :: k2 :: r2 <> []) by discriminate.
+      assert (NM : removelast (k1 :: k2 :: r2) <> []) by (cbn; destruct r2; discriminate).
+      rewrite get_tuple_2.
+      change (view_contains_lo true lo nt (k :: k1 :: k2 :: r2) es) with
+        (match aget k es with
+         | None => Ok false | Some (Leaf LT _) => Ok false | Some (Leaf LS _) => Raise EUnmodelled
+         | Some (Node sub) =>
+             match get_tuple (removelast (k1 :: k2 :: r2)) sub true with
+             | GDef => Ok false
+             | GVal (Node s2) => Ok (entry_listed lo nt (last (k1 :: k2 :: r2) "") s2)
+             | GVal (Leaf LT _) => Ok false
+             | GVal (Leaf LS _) => Raise EUnmodelled
+             | GRaise e => Raise e
+             end
+         end) in C.
+      destruct (aget k es) as [[[|] z|sub]|]; try (injection C as <-; reflexivity); try discriminate.
+      replace (get_tuple (k1 :: k2 :: r2) sub true)
+        with (get_tuple (removelast (k1 :: k2 :: r2) ++ [last (k1 :: k2 :: r2) ""]) sub true)
+        by (now rewrite <- app_removelast_last).
+      rewrite (get_tuple_snoc _ _ _ NM).
+      destruct (get_tuple (removelast (k1 :: k2 :: r2)) sub true) as [[[|] z|s2]| |e];
+        try (injection C as <-; reflexivity); try discriminate.
+      injection C as <-. apply entry_listed_get.
+Qed.
+
+(* `key in td.keys(include_nested, leaves_only, is_leaf, sort=...)` answers what iterating that view lists, for EVERY
+   flag combination (S7 fixed) *)
+Theorem contains_iff_listed inc lo so nt k es b : wfE es -> wfb k = true ->
+  keys_contains inc lo nt k es = Ok b -> (b = true <-> In (strings k) (keys_view inc lo so nt es)).
+Proof.
+  intros W Wk C. destruct (wf_key_tuple k Wk) as [U N].
+  rewrite (keys_view_in inc lo so nt (strings k) es W).
+  unfold keys_contains in C.
+  destruct (negb inc && negb lo && negb nt) eqn:FP.
+  - (* _StringKeys *)
+    destruct inc, lo, nt; try discriminate.
+    assert (P : exists s, strings k = [s] /\ b = amem s es).
+    { destruct k as [s|l|]; [cbn in C; injection C as <-; eauto| |discriminate].
+      cbn [skeys_contains] in C. rewrite U in C. destruct (strings (KT l)) as [|s [|s2 r]]; try discriminate.
+      injection C as <-. eauto. }
+    destruct P as [s [S ->]]. rewrite S. unfold amem. rewrite get_tuple_1. split.
+    + destruct (aget s es) as [v|]; [|discriminate]. intros _. exists v. repeat split; auto; discriminate.
+    + intros [v [_ [_ [G _]]]]. destruct (aget s es); [reflexivity|discriminate].
+  - rewrite U in C. destruct inc.
+    + pose proof (view_contains_lo_get lo nt (strings k) es b N C) as B. subst b. unfold listedb. split.
+      * destruct (get_tuple (strings k) es true) as [v| |e]; try discriminate. intros C2. exists v. auto.
+      * intros [v [_ [_ [G C2]]]]. rewrite G. exact C2.
+    + (* not nested: only a length-one key gets an answer *)
+      destruct (strings k) as [|s [|s2 r]] eqn:S; [congruence| |cbn in C; discriminate].
+      cbn in C. injection C as <-. rewrite entry_listed_get. unfold listedb. split.
+      * destruct (get_tuple [s] es true) as [v| |e]; try discriminate. intros C2. exists v. repeat split; auto; discriminate.
+      * intros [v [_ [_ [G C2]]]]. rewrite G. exact C2.
 Qed.
